@@ -200,16 +200,18 @@ Render(f, n) ==
 
 \* The bound N of each family.  Exponential re-parsing / re-expansion cannot meet the bounds of the
 \* group and entity families (2^40 steps); the linear families are bounded by what a caller may
-\* hand to a parser and a quadratic algorithm still finishes within the limit (20 000 nested elements
-\* or parentheses, 50 000 characters / children, 2 000 attributes).
+\* hand to a parser and for which a quadratic algorithm still finishes well within the limit (the
+\* property forbids exponential time, not quadratic): 20 000 nested elements or parentheses, 50 000
+\* characters, 10 000 children, 1 000 attributes / references, a chain of 500 entities.
 MaxN(f) ==
   CASE f \in {"Deep", "DeepMixed", "Parens"} -> 20000
-    [] f \in {"ManyChildren", "LongText", "LongComment", "LongAttr", "LongCData"} -> 50000
-    [] f = "ManyAttrs" -> 2000
-    [] f = "ManyRefs" -> 5000
+    [] f \in {"LongText", "LongComment", "LongAttr", "LongCData"} -> 50000
+    [] f = "ManyChildren" -> 10000
+    [] f = "ManyAttrs" -> 1000
+    [] f = "ManyRefs" -> 1000
     [] f \in {"GroupsL", "GroupsR", "SeqGroupsL", "SeqGroupsR", "MixGroupsL"} -> 40
     [] f \in {"CycleContent", "CycleAttr"} -> 40
-    [] f \in {"ChainContent", "ChainAttr"} -> 1000
+    [] f \in {"ChainContent", "ChainAttr"} -> 500
     [] f = "Laughs" -> 12
     [] f = "Odd" -> Len(OddDocs)
 
